@@ -106,6 +106,17 @@ CHECKS = {
               "implementation on runs without narrowing events (all eight types, ranks 1..4), and the bound oracle runs on all cases."),
         note=TB_COMMON + "binary64 evaluation of the state formula assumed exact below 2^52 (tied by comparison); per-file C types of intermediates are a table in the model; finding classes int_fractional_bound / int_narrowing are decided by e and by the model's event flag (or a sufficient safe-zone predicate).",
         technique="Coq proof (generic codec induction + integer division lemma) + bit-exact model/implementation comparison + bound oracle"),
+    "C01": dict(
+        category="proof", design_ref="DESIGN.md §4 C01",
+        text=("Generic theorems for every SZ kernel (any value type, predictor, quantiser): decoder history = encoder history and element-wise "
+              "bound from three obligations; the same two theorems with the obligations evaluated per element by the model. Instantiated with the "
+              "SZ-1.4 1-D float and double kernels transcribed over Flocq binary32/binary64 (range, median, required length, mantissa truncation, "
+              "mixed int/float/double expressions): the float kernel's re-check is proved to make predicted elements meet the bound on every input; "
+              "the double kernel's missing re-check and the float code-0 edge are refuted statements with witnesses (listed findings). On every run "
+              "the model reproduces the implementation's 1-D reconstruction bit for bit (bound and interval count read from the stream), its checks "
+              "are evaluated, and the bound oracle runs over ranks 1..4, both kernels families, 12 configurations, 4 modes under ASan."),
+        note=TB_COMMON + "Stdlib real-number axioms + classic + functional extensionality through Flocq (Print Assumptions per theorem in the evidence). The 2-D..4-D SZ-1.4 and regression kernels are not transcribed: they are covered by the generic theorems only via the implementation oracle (partial). Truncation-within-bound is an evaluated check, not a theorem.",
+        technique="Coq proof (generic codec induction, Flocq-based kernel instances, vm_compute witnesses) + bit-exact differential + bound oracle"),
 }
 
 NOT_YET = {}
